@@ -83,6 +83,48 @@ theorem curve_within {pts : List (Rat × Rat)} (h2 : 2 ≤ pts.length) (ha : Acc
   have := hy _ this
   simpa [List.getD_eq_getElem?_getD, List.getElem?_eq_getElem hi'] using this
 
+theorem curve_ge2 {pts : List (Rat × Rat)} (h2 : 2 ≤ pts.length) (t : Rat) :
+    curve pts t =
+      if acceptedB ((sorted pts).map (·.1)) then
+        .ok (eval (sorted pts).length (fun i => ((sorted pts).map (·.1)).getD i 0)
+          (fun i => ((sorted pts).map (·.2)).getD i 0) t)
+      else .error "reject:abscissae not strictly increasing" := by
+  match pts, h2 with
+  | a :: b :: rest, _ => rfl
+
+/-- Sorting by abscissa forgets the order in which points with distinct abscissae were listed. -/
+theorem sorted_perm {p q : List (Rat × Rat)} (h : p.Perm q) (hd : (p.map (·.1)).Nodup) : sorted p = sorted q := by
+  unfold sorted
+  have tr : ∀ a b c : Rat × Rat, decide (a.1 ≤ b.1) = true → decide (b.1 ≤ c.1) = true → decide (a.1 ≤ c.1) = true := by
+    intro a b c h1 h2; simp only [decide_eq_true_eq] at *; exact le_trans h1 h2
+  have tot : ∀ a b : Rat × Rat, (decide (a.1 ≤ b.1) || decide (b.1 ≤ a.1)) = true := by
+    intro a b; simp only [Bool.or_eq_true, decide_eq_true_eq]; exact le_total _ _
+  have s1 := List.pairwise_mergeSort tr tot p
+  have s2 := List.pairwise_mergeSort tr tot q
+  have pp : (p.mergeSort fun a b => decide (a.1 ≤ b.1)).Perm (q.mergeSort fun a b => decide (a.1 ≤ b.1)) :=
+    (List.mergeSort_perm p _).trans (h.trans (List.mergeSort_perm q _).symm)
+  refine List.Perm.eq_of_pairwise ?_ s1 s2 pp
+  intro a b ha hb hab hba
+  simp only [decide_eq_true_eq] at hab hba
+  have e : a.1 = b.1 := le_antisymm hab hba
+  have ha' : a ∈ p := List.mem_mergeSort.mp ha
+  have hb' : b ∈ p := h.mem_iff.mpr (List.mem_mergeSort.mp hb)
+  exact List.inj_on_of_nodup_map hd ha' hb' e
+
+/-- **The order in which a table lists its points carries no meaning**: two listings of the same points
+(no abscissa given twice) give the same curve — the same value, or the same refusal, at every abscissa. -/
+theorem curve_order_free {p q : List (Rat × Rat)} (h : p.Perm q) (hd : (p.map (·.1)).Nodup) (t : Rat) :
+    curve p t = curve q t := by
+  have hl := h.length_eq
+  by_cases h2 : 2 ≤ p.length
+  · rw [curve_ge2 h2, curve_ge2 (hl ▸ h2), sorted_perm h hd]
+  · match p, q, h, hl, h2 with
+    | [], [], _, _, _ => rfl
+    | [a], [b], h, _, _ =>
+      have : a = b := by simpa using h
+      rw [this]
+    | _ :: _ :: _, _, _, _, h2 => exact absurd (by simp) h2
+
 /-- A non-trivial instance: the hypotheses are satisfiable and the statements say something (a
 consumption curve with a 110 % point: strictly increasing abscissae, a minimum inside, and the value
 at the last point).  `Accepted` on concrete lists goes through `List.mergeSort`, which the kernel does
@@ -102,6 +144,9 @@ open Feems.Pchip
 theorem curve_through_points {pts : List (Rat × Rat)} (h2 : 2 ≤ pts.length) (ha : Accepted pts)
     {p : Rat × Rat} (hp : p ∈ pts) : curve pts p.1 = .ok p.2 := Feems.Pchip.curve_through_points h2 ha hp
 theorem curve_single (p : Rat × Rat) (t : Rat) : curve [p] t = .ok p.2 := rfl
+/-- C07: the order in which the table of a characteristic lists its points carries no meaning. -/
+theorem curve_order_free {p q : List (Rat × Rat)} (h : p.Perm q) (hd : (p.map (·.1)).Nodup) (t : Rat) :
+    curve p t = curve q t := Feems.Pchip.curve_order_free h hd t
 /-- C07: between the points the characteristic stays between the neighbouring given values. -/
 theorem curve_between_points {n : Nat} {x : Nat → Rat} (y : Nat → Rat) (hs : StrictOn n x) (hn : 2 ≤ n) {t : Rat}
     (h0 : x 0 ≤ t) (h1 : t ≤ x (n - 1)) :
@@ -121,6 +166,9 @@ open Feems.Pchip
 theorem emission_curve_through_points {pts : List (Rat × Rat)} (h2 : 2 ≤ pts.length) (ha : Accepted pts)
     {p : Rat × Rat} (hp : p ∈ pts) : curve pts p.1 = .ok p.2 := Feems.Pchip.curve_through_points h2 ha hp
 theorem emission_curve_single (p : Rat × Rat) (t : Rat) : curve [p] t = .ok p.2 := rfl
+/-- C09: an emission curve does not depend on the order in which its points are listed. -/
+theorem emission_curve_order_free {p q : List (Rat × Rat)} (h : p.Perm q) (hd : (p.map (·.1)).Nodup) (t : Rat) :
+    curve p t = curve q t := Feems.Pchip.curve_order_free h hd t
 /-- C09: non-negative given values give a non-negative specific emission over the whole range of the points. -/
 theorem emission_curve_nonneg {pts : List (Rat × Rat)} (h2 : 2 ≤ pts.length) (ha : Accepted pts)
     (hy : ∀ p ∈ pts, 0 ≤ p.2) {t : Rat}
